@@ -40,6 +40,9 @@ func (vc *VC) buildQuery(o *Obligation, extra []Term, getValues []string) string
 	for _, t := range vc.axioms {
 		asserts = append(asserts, t.S)
 	}
+	for _, t := range vc.literalFacts() {
+		asserts = append(asserts, t.S)
+	}
 	if o.Cover {
 		// cover: is the path condition satisfiable? (no slicing: dropping
 		// hypotheses could hide a contradiction)
